@@ -183,6 +183,8 @@ impl<E: Exfiltrator> SignalsInfo<E> {
     /// Returns true if it was possible to read a byte and false otherwise.
     fn has_signals(read: &mut UnixStream) -> Result<bool, Error> {
         loop {
+            #[cfg(sighook_verif)]
+            signal_hook_registry::verif_shim::block_readable(std::os::unix::io::AsRawFd::as_raw_fd(read));
             match read.read(&mut [0u8]) {
                 Ok(num_read) => break Ok(num_read > 0),
                 // If we get an EINTR error it is fine to retry reading from the stream.
